@@ -16,6 +16,12 @@ streams (through the Lean driver)
           content) of every cell of every remaining row.
   rec   : expanded-token streams RECORDED from real runs (plasTeX.TeX.bufferediter replaced while parsing
           generated and ~15% malformed documents) replayed through the model's digestion: DOM shape vs model.
+  pos   : forests of nested lists (Spec.ListNumbers: up to four levels, labelled and unlabelled items): the driver
+          spells the macro invocations, runs Model.ListNumbering (List.invoke / item.invoke / postArgument: nesting
+          depth, counter of the level, position, stepping and resets) and the Spec numbering; the implementation
+          side parses a real document (random mix of itemize/enumerate/description/trivlist) TWICE in the same
+          process and reads counter + position of every item, the final list depth and the list counters.
+  posev : invocation sequences outside that grammar (unclosed lists, a fifth and sixth level): impl vs model.
 document level (extra_checks, stream doc10): generated lists/tabulars, observation compared with the
 generator's own expectation computed in Python from the tree (independent of the Lean side).
 """
@@ -30,19 +36,19 @@ LEVEL_TEXT = ('Lean 4 theorems over a line-by-line model of the digestion loops 
               'ArrayRow/Array.applyBorders, colspec styles, numCols): digest_roundtrip / items_roundtrip / table_roundtrip prove for EVERY tree of the grammar (lists, tables, groups, '
               'environments nested without bound) that digesting its token stream rebuilds exactly one item per \\item, one row per row, one cell per cell with the written content; '
               'multicolumn_span, full_row_spans_sum, colspec_compile/colspec_count (incl. *{n}{..} push-back, p{}, @{}, >{}), hline_marks_row, cline_marks_exactly, vbar_marks_columns, '
-              'borders_keep_cells, table_rows_kept (Array.applyBorders keeps exactly the non-border-only rows with their cells untouched) and cell_format_isolated (a declaration stops at & / \\\\) are proved for all rows/specifications. The models are tied to the code by differential execution of the real classes and of real documents, '
+              'borders_keep_cells, table_rules_adjacent (the index/mutation loop of Array.applyBorders equals the structural specTable: a rule-only row marks the bottom of the nearest content row above, a rule-only first row the top of the second row), link_cells_endpoints (Array.linkCells colspecStart/End = the declared columns a spanning cell covers), item_positions / list_state_restored (List.invoke, item.invoke, postArgument: every item of a forest nested <= 4 deep is numbered by the counter of its level with its rank among the unlabelled items; depth and counters are restored), table_rows_kept (Array.applyBorders keeps exactly the non-border-only rows with their cells untouched) and cell_format_isolated (a declaration stops at & / \\\\) are proved for all rows/specifications. The models are tied to the code by differential execution of the real classes and of real documents, '
               'including replay of recorded real token streams. Carried by correspondence only: which macro emits which phantom token and context depth, paragraphs(), '
-              'argument parsing of \\item[..]/\\multicolumn/\\cline, which adjacent row a rule-only row marks at table level (Array.applyBorders loop: modelled, compared with the Spec denotation denTable on every run, not proved).')
+              'argument parsing of \\item[..]/\\multicolumn/\\cline, the reading of rule placement from the written source (Spec.denTable, rule normal form) is compared on every run; refstepcounter/currentlabel and the \\the<counter> formatting of item numbers belong to C08.')
 LEVEL_NOTE = ('Trusted: Lean kernel (axioms propext, Classical.choice, Quot.sound only), translator (ColumnType.columnTypes), the correspondence harness, its canonicaliser '
-              '(blanks dropped; par wrappers dropped inside items/cells/groups/environments but shown as a direct child of a list, array or row; text compared per character) and generators, CPython. Not verified: longtable, tabularx widths, booktabs trim, linkCells colspecStart/End.')
-TECHNIQUE = 'Lean 4 proof (mutual structural induction over document trees / specification trees, exact fuel accounting) + regenerated column-type table + differential correspondence incl. recorded token streams'
+              '(blanks dropped; par wrappers dropped inside items/cells/groups/environments but shown as a direct child of a list, array or row; text compared per character) and generators, CPython. Not verified: longtable (own digest of head/foot rows), tabularx/tabular* widths, booktabs trim and rule widths (parsed, ignored), ArrayRow/Array.source.')
+TECHNIQUE = 'Lean 4 proof (mutual structural induction over document trees / specification trees / list forests, exact fuel accounting, loop-to-structural refinement for Array.applyBorders) + regenerated column-type and list-counter reset tables + differential correspondence incl. recorded token streams'
 TRUSTED = ['python oracle harness/props/c10.py:expect_* (the generator\'s own expectation for the doc10 stream)',
            'recording shim replacing plasTeX.TeX.bufferediter inside the harness process']
 ASSUMPTIONS = ['rule normal form for the Spec denotation of tables: \\hline/\\cline at the start of a row or alone in a row; \\cline spans aligned with cell boundaries',
                'a bare font declaration directly in an item body (\\item \\bfseries x \\item y) is outside the generated grammar: its node absorbs the following items (observed, reported)',
-               'MathShift.inEnv and List.depth (class-level state) are reset by the harness before every document']
+               'every document of a run is parsed in the same process without resetting any plasTeX state in between; the pos stream parses each document twice and requires equal results']
 RULE = ('trees generated recursively from the seed: lists (3 kinds, depth<=4, terms, multi-paragraph items, spaces / blank lines / \\par between \\begin{..} and the first \\item and after an \\item, groups/environments/math/tabulars inside), tabulars (1-5 columns, 1-6 rows, '
-        'random colspecs with | p{} @{} >{} *{n}{}, \\multicolumn, \\hline/\\cline, empty cells, groups, math, nested tabulars), ~15% malformed documents for the rec stream; '
+        'random colspecs with | p{} @{} >{} *{n}{}, \\multicolumn, \\hline/\\cline and the booktabs rules, \\\\ \\\\* \\\\[..] \\tabularnewline \\cr, [pos] arguments, tabular / tabular* / tabularx / tabulary / array / amsmath matrices, trivlist / list / enumerate[..], empty cells, groups, math, nested tabulars), list forests for the numbering streams, ~15% malformed documents for the rec stream; '
         'non-trivial = spec defined and the input has >= 2 items / >= 2 cells / a star, bar or argument column / a span; distinct = distinct request line')
 EXHAUSTIVE = {}
 CASE_TIMEOUT = 30
@@ -76,14 +82,46 @@ def gen_arrays():
     return 'PlasVerif/Generated/Arrays.lean', src, 'exact'
 
 
-GENERATED = [gen_arrays]
+def gen_list_counters():
+    """List.counters and the reset chain of those counters in the context of an article document (probed on the live context)"""
+    from plasTeX.TeX import TeX
+    from plasTeX import TeXDocument
+    from plasTeX.Base.LaTeX.Lists import List
+    doc = TeXDocument()
+    tex = TeX(doc)
+    tex.input('\\documentclass{article}\\begin{document}\\end{document}')
+    tex.parse()
+    names = list(List.counters)
+    if not names or not all(isinstance(n, str) and n.isalpha() for n in names):
+        raise ValueError('List.counters = %r' % (names,))
+    reset = []
+    for n in names:
+        rb = doc.context.counters[n].resetby
+        if rb is None:
+            reset.append('none')
+        elif rb in names:
+            reset.append('some %d' % names.index(rb))
+        else:
+            raise ValueError('counter %s reset by %r' % (n, rb))
+    src = (extract.HEADER % ('plasTeX/Base/LaTeX/Lists.py (List.counters) and the counters declared by the article class', 'probed') +
+           'namespace PlasVerif.Generated.ListCounters\n'
+           '/-! `List.counters` (names as code points) and, for each, the index of the list counter that resets it\n'
+           '    (`Counter.resetby`), after `\\documentclass{article}` -/\n'
+           'def counterNames : List (List Nat) := [' + ', '.join('[' + ', '.join(str(ord(c)) for c in n) + ']' for n in names) + ']\n'
+           'def resetBy : List (Option Nat) := [' + ', '.join(reset) + ']\n'
+           'end PlasVerif.Generated.ListCounters\n')
+    return 'PlasVerif/Generated/ListCounters.lean', src, 'probed'
+
+
+GENERATED = [gen_arrays, gen_list_counters]
 
 # ---------------------------------------------------------------- names
 
 CMDS = {1: 'textbf', 2: 'emph'}
 ENVS = {1: 'center', 2: 'quote', 3: 'math', 4: 'flushleft', 5: 'bfseries', 6: 'itshape', 7: 'bf', 8: 'displaymath'}
-LISTS = {1: 'itemize', 2: 'enumerate', 3: 'description'}
-ARRS = {1: 'tabular', 2: 'array'}
+LISTS = {1: 'itemize', 2: 'enumerate', 3: 'description', 4: 'trivlist', 5: 'list'}
+ARRS = {1: 'tabular', 2: 'array', 3: 'tabular*', 4: 'tabularx', 5: 'tabulary', 6: 'matrix', 7: 'pmatrix', 8: 'bmatrix'}
+MATH_ARRS = ('array', 'matrix', 'pmatrix', 'bmatrix')
 CMD_ID = {v: k for k, v in CMDS.items()}
 ENV_ID = {v: k for k, v in ENVS.items()}
 LIST_ID = {v: k for k, v in LISTS.items()}
@@ -191,13 +229,19 @@ def cols_str(cols):
 # ['L', code] | ['G', blocks] | ['V', ty, blocks] | ['I', ty, lead, [[term, lead, blocks], ...]] (lead: blanks as a string over s=space, P=blank line, Q=\\par) | ['A', ty, cspec, rows] rows = [[cell blocks, ...], ...]
 
 
-def leaf_tex(code):
+HLINES = ['\\hline ', '\\toprule ', '\\midrule ', '\\bottomrule ', '\\toprule[1pt]', '\\midrule[.5pt]']
+CLINES = ['\\cline{%s}', '\\cmidrule{%s}', '\\cmidrule(lr){%s}', '\\cmidrule[1pt](l){%s}']
+ROWSEPS = ['\\\\', '\\\\*', '\\\\[2pt]', '\\tabularnewline ', '\\cr ', '\\\\ ']
+
+
+def leaf_tex(code, var=0):
+    """`var` selects among the spellings that are the same kind of token (\\hline / booktabs rules, \\cline / \\cmidrule)"""
     if code.startswith('t'): return chr(int(code[1:]))
     if code == 's': return ' '
     if code == 'P': return '\n\n'
-    if code.startswith('cl'): return '\\cline{%s}' % code[2:]
+    if code.startswith('cl'): return CLINES[var % len(CLINES)] % code[2:]
     if code.startswith('c'): return '\\%s{q}' % CMDS[int(code[1:])]
-    if code == 'hl': return '\\hline '
+    if code == 'hl': return HLINES[var % len(HLINES)]
     if code == 'vl': return '\\vline '
     if code.startswith('mc'):
         n, a, bl, br, s = code[2:].split('.')
@@ -223,7 +267,7 @@ def blocks_tex(bs):
 
 def block_tex(b):
     k = b[0]
-    if k == 'L': return leaf_tex(b[1])
+    if k == 'L': return leaf_tex(b[1], b[2] if len(b) > 2 else 0)
     if k == 'G': return '{' + blocks_tex(b[1]) + '}'
     if k == 'V':
         name = ENVS[b[1]]
@@ -232,16 +276,26 @@ def block_tex(b):
     if k == 'D':
         return '\\%s %s' % (ENVS[b[1]], blocks_tex(b[2]))
     if k == 'I':
-        s = '\\begin{%s}' % LISTS[b[1]] + lead_tex(b[2])
+        name = LISTS[b[1]]
+        s = '\\begin{%s}' % name + ('{-}{}' if name == 'list' else '') + (b[4] if len(b) > 4 else '') + lead_tex(b[2])
         for term, nsp, body in b[3]:
             s += '\\item' + ('[%s]' % chr(term) if term else '') + (lead_tex(nsp) or ' ')
             s += blocks_tex(body)
-        return s + '\\end{%s}' % LISTS[b[1]]
+        return s + '\\end{%s}' % name
     if k == 'A':
         name = ARRS[b[1]]
-        rows = ['&'.join(blocks_tex(c) for c in row) for row in b[3]]
-        body = '\\\\'.join(rows)
-        s = '\\begin{%s}{%s}%s\\end{%s}' % (name, cspec_tex(b[2]), body, name)
+        opts = b[4] if len(b) > 4 else {}
+        seps = opts.get('seps', [])
+        body = ''
+        for i, row in enumerate(b[3]):
+            if i:
+                body += ROWSEPS[seps[i - 1] % len(ROWSEPS)] if i - 1 < len(seps) else '\\\\'
+            body += '&'.join(blocks_tex(c) for c in row)
+        pos = opts.get('pos', '')
+        if name.endswith('matrix'):            # amsmath: no column specification
+            return '$\\begin{%s}%s\\end{%s}$' % (name, body, name)
+        head = {'tabular': pos, 'array': pos, 'tabular*': '{5cm}' + pos, 'tabularx': '{5cm}', 'tabulary': '{5cm}'}[name]
+        s = '\\begin{%s}%s{%s}%s\\end{%s}' % (name, head, cspec_tex(b[2]), body, name)
         return '$' + s + '$' if name == 'array' else s
     raise ValueError(k)
 
@@ -271,7 +325,7 @@ def block_words(b):
                 if j: out.append('&')
                 out += blocks_words(cell)
         out.append(')')
-        return (['V3('] + out + [')']) if ARRS[b[1]] == 'array' else out
+        return (['V3('] + out + [')']) if ARRS[b[1]] in MATH_ARRS else out
     raise ValueError(k)
 
 
@@ -295,7 +349,7 @@ def shape_of(b):
                 out += ['cell('] + shapes_of(cell) + [')']
             out.append(')')
         out.append(')')
-        return (['Be3('] + out + [')']) if ARRS[b[1]] == 'array' else out
+        return (['Be3('] + out + [')']) if ARRS[b[1]] in MATH_ARRS else out
     raise ValueError(k)
 
 
@@ -354,12 +408,13 @@ class Gen:
 
     def list(self, depth=0, ldepth=1):
         r = self.rng
-        ty = r.choice([1, 2, 3])
+        ty = r.choice([1, 2, 3, 1, 2, 3, 4, 5])
         items = []
         for _ in range(r.randint(1, 4) if r.random() < 0.95 else 0):
             term = ord(r.choice('STUVW')) if ty == 3 or r.random() < 0.1 else 0
             items.append([term, self.lead(0.12) if not term else 's' + self.lead(0.12).replace('s', ''), self.item_body(depth, ldepth)])
-        return ['I', ty, self.lead(0.3), items]
+        opt = r.choice(['[a]', '[i]', '[(1)]']) if ty == 2 and r.random() < 0.2 else ''
+        return ['I', ty, self.lead(0.3), items] + ([opt] if opt else [])
 
     def lead(self, ppar):
         """blanks between \\begin{list} and the first \\item / after an \\item: spaces, blank lines, \\par"""
@@ -413,14 +468,34 @@ class Gen:
             rows.append(cells)
         if r.random() < 0.6:
             rows.append([self.rules(ncols, [cell_span(c)[0] for c in rows[-1]]) if r.random() < 0.6 else []])  # what follows the last \\
-        return ['A', 1, spec, rows]
+        ty = r.choice([1, 1, 1, 3, 4, 5])
+        opts = {'seps': [r.randrange(len(ROWSEPS)) if r.random() < 0.4 else 0 for _ in rows[1:]]}
+        if ty in (1, 3) and r.random() < 0.2:
+            opts['pos'] = r.choice(['[t]', '[b]', '[c]'])
+        return ['A', ty, spec, rows, opts]
+
+    def math_array(self):
+        """$\\begin{array}{..} .. \\end{array}$: cells in math mode (letters and groups only)"""
+        r = self.rng
+        ncols, nrows = r.randint(1, 4), r.randint(1, 4)
+        rows = []
+        for i in range(nrows):
+            cells = [self.text() + ([['G', self.text()]] if r.random() < 0.3 else []) if r.random() < 0.85 else [] for _ in range(ncols)]
+            if r.random() < 0.3:
+                cells[0] = self.rules(ncols) + cells[0]
+            rows.append(cells)
+        if r.random() < 0.5:
+            rows.append([self.rules(ncols) if r.random() < 0.5 else []])
+        ty = r.choice([2, 2, 6, 7, 8])
+        return ['A', ty, gen_cspec(r, ncols) if ty == 2 else [], rows, {'seps': [r.randrange(len(ROWSEPS)) if r.random() < 0.3 else 0 for _ in rows[1:]]}]
 
     def rules(self, ncols, spans=None):
         r = self.rng
         out = []
         for _ in range(r.randint(1, 2) if r.random() < 0.2 else 1):
+            var = r.randrange(6) if r.random() < 0.35 else 0
             if r.random() < 0.55 or ncols == 1:
-                out.append(['L', 'hl'])
+                out.append(['L', 'hl', var])
             else:
                 # \cline aligned with the cell boundaries of the row it touches when known
                 starts = [1]
@@ -428,7 +503,7 @@ class Gen:
                     starts.append(starts[-1] + s)
                 i = r.randrange(len(starts) - 1)
                 j = r.randrange(i, len(starts) - 1)
-                out.append(['L', 'cl%d-%d' % (starts[i], starts[j + 1] - 1)])
+                out.append(['L', 'cl%d-%d' % (starts[i], starts[j + 1] - 1), var])
         if r.random() < 0.3:
             out.insert(0, ['L', 's'])
         return out
@@ -487,7 +562,9 @@ def expect_table(t):
             for spec in cols[start - 1:start - 1 + span]:
                 s = own or spec
                 st = [s[0] if s[0] else st[0], st[1] or s[1], st[2] or s[2]]
-            cells.append('%d;%s;%d.%d.%d;%s' % (span, marks, st[0], int(st[1]), int(st[2]), ' '.join(shapes_of([kept_rows(b) for b in cell]))))
+            # linkCells: a spanning cell is linked to the first and last declared column it covers (0-based), if they exist
+            link = '%d-%d' % (start - 1, start + span - 2) if span > 1 and start + span - 2 < len(cols) else '-'
+            cells.append('%d;%s;%d.%d.%d;%s;%s' % (span, marks, st[0], int(st[1]), int(st[2]), link, ' '.join(shapes_of([kept_rows(b) for b in cell]))))
             start += span
         out.append(' | '.join(cells))
     return ' / '.join(out)
@@ -541,7 +618,10 @@ def tokcode(t):
     if t.nodeName == 'setcounter': return 'sc'
     if isinstance(t, Array.cline):
         sp = t.attributes['span']
-        return 'cl%d-%d' % (sp[0], sp[1])
+        try:
+            return 'cl%d-%d' % (int(sp[0]), int(sp[1]))
+        except (TypeError, ValueError, IndexError):
+            return 'cl?'                      # not the pair of integers \cline{i-j} must give: reported as a mismatch, not a crash
     if isinstance(t, Array.hline): return 'hl'
     if isinstance(t, Array.vline): return 'vl'
     if isinstance(t, Array.multicolumn):
@@ -585,9 +665,8 @@ def run_doc(body, record=False):
     """parse a real document; returns (document element, recorded top-level stream or None)"""
     S = _classes()
     T = S['T']
-    if hasattr(S['MathShift'], 'inEnv'):      # class-level before the D6a repair (C17); per document since then
-        S['MathShift'].inEnv[:] = []
-    S['List'].depth = 0
+    # no state is reset between documents: list depth and open-math tracking are per document (fixes 50c58f0 / C17),
+    # and thousands of documents share this process - anything leaking from one into the next shows up as a mismatch
     recs = []
     if record:
         class rec(S['orig']):
@@ -603,7 +682,7 @@ def run_doc(body, record=False):
     try:
         doc = S['plasTeX'].TeXDocument()
         tex = T.TeX(doc)
-        tex.input('\\documentclass{article}\\begin{document}' + body + '\\end{document}')
+        tex.input('\\documentclass{article}' + ('\\usepackage{amsmath}' if 'matrix}' in body else '') + '\\begin{document}' + body + '\\end{document}')
         tex.parse()
     finally:
         T.bufferediter = S['orig']
@@ -616,6 +695,21 @@ def canon_exc(e):
     return 'err:' + (n if n in ('IndexError',) else 'overrun')
 
 
+def first_arrays(node):
+    """the array-like nodes (tabular, tabular*, tabularx, tabulary, array) in document order"""
+    S = _classes()
+    out = []
+
+    def walk(n):
+        for c in n.childNodes:
+            if c.nodeType == S['plasTeX'].Macro.ELEMENT_NODE:
+                if isinstance(c, S['Array']):
+                    out.append(c)
+                walk(c)
+    walk(node)
+    return out
+
+
 def obs_table(tab):
     rows = []
     for row in tab.childNodes:
@@ -625,8 +719,15 @@ def obs_table(tab):
             span = a.get('colspan', 1) if a else 1
             st = cell.style
             marks = ''.join(m for m, k in (('T', 'top'), ('B', 'bottom'), ('L', 'left'), ('R', 'right')) if ('border-%s-style' % k) in st)
-            cells.append('%d;%s;%d.%d.%d;%s' % (span, marks, ALIGN.get(st.get('text-align'), 0), 'border-left' in st, 'border-right' in st,
-                                                ' '.join(dom_shape(cell, []))))
+            cs = tab.colspec or []
+            ids = [id(x) for x in cs]
+            a0, a1 = getattr(cell, 'colspecStart', None), getattr(cell, 'colspecEnd', None)
+            if a0 is None and a1 is None:
+                link = '-'
+            else:
+                link = '%s-%s' % (ids.index(id(a0)) if id(a0) in ids else '?', ids.index(id(a1)) if id(a1) in ids else '?')
+            cells.append('%d;%s;%d.%d.%d;%s;%s' % (span, marks, ALIGN.get(st.get('text-align'), 0), 'border-left' in st, 'border-right' in st,
+                                                   link, ' '.join(dom_shape(cell, []))))
         rows.append(' | '.join(cells))
     return ' / '.join(rows)
 
@@ -673,6 +774,16 @@ def impl(case, aux):
         return 'ok:' + ''.join('1' if ('border-%s-style' % loc) in c.style else '0' for c in cells)
     if st == 'rec':
         return case.meta['impl']
+    if st in ('pos', 'posev'):
+        events = (aux[0] if st == 'pos' else case.line).split()
+        tex = events_tex(events, case.meta['seed'])
+        case.meta['tex'] = tex
+        try:
+            first = numbering_obs(tex)
+            second = numbering_obs(tex)        # a second document in the same process must behave the same
+        except Exception as e:
+            return 'err:' + type(e).__name__
+        return first if first == second else 'unstable: %s THEN %s' % (first, second)
     if st in ('tree', 'table'):
         try:
             de, _ = run_doc(case.meta['tex'])
@@ -680,9 +791,80 @@ def impl(case, aux):
             return 'err:' + type(e).__name__
         if st == 'tree':
             return 'ok:' + ' '.join(dom_shape(de, []))
-        tabs = de.getElementsByTagName('tabular')
+        tabs = first_arrays(de)
         return 'ok:' + obs_table(tabs[0]) if tabs else 'no-table'
     raise ValueError(st)
+
+
+def events_tex(events, seed):
+    """spell an invocation sequence (B = \\begin{list}, E = \\end, I0 = \\item, I1 = \\item[label]) with a random mix of the list kinds"""
+    rng = _random.Random(seed)
+    out, stack = [], []
+    for e in events:
+        if e == 'B':
+            name = rng.choice(['itemize', 'enumerate', 'description', 'enumerate', 'trivlist'])
+            stack.append(name)
+            out.append('\\begin{%s}' % name + rng.choice(['', '\n', '\n\n']))
+        elif e == 'E':
+            out.append('\\end{%s}' % (stack.pop() if stack else 'itemize') + rng.choice(['', ' ', '\n\n']))
+        else:
+            out.append('\\item' + ('[%s]' % rng.choice('STUV') if e == 'I1' else '') + ' ' + rng.choice(LETTERS) + rng.choice(['', ' ', '\n\n' + rng.choice(LETTERS)]))
+    return ''.join(out)
+
+
+def numbering_obs(tex):
+    """(counter index, position) of every item in document order, final list depth and list counters"""
+    S = _classes()
+    Macro, List = S['plasTeX'].Macro, S['List']
+    doc = S['plasTeX'].TeXDocument()
+    t = S['T'].TeX(doc)
+    t.input('\\documentclass{article}\\begin{document}' + tex + '\\end{document}')
+    t.parse()
+    names = list(List.counters)
+    out = []
+
+    def walk(n):
+        for c in n.childNodes:
+            if c.nodeType == Macro.ELEMENT_NODE:
+                if isinstance(c, List.item):
+                    out.append('%d.%d' % (names.index(c.counter) if c.counter in names else 4, c.position))
+                walk(c)
+                if c.attributes:
+                    for v in c.attributes.values():
+                        if hasattr(v, 'childNodes'):
+                            walk(v)
+    walk(doc)
+    return 'ok:%s | d=%d c=%s' % (' '.join(out), doc.userdata.get('list-depth', 0), ','.join(str(doc.context.counters[n].value) for n in names))
+
+
+def gen_forest(rng, depth=0, maxdepth=4):
+    """words of a forest of nested lists (Spec.ListNumbers): lists ::= ('[' items ']')*, items ::= (('i0'|'i1') lists)*"""
+    out = []
+    for _ in range(rng.randint(1, 2) if depth == 0 else (1 if rng.random() < 0.8 else 2)):
+        out.append('[')
+        for _ in range(rng.randint(0, 4)):
+            out.append('i1' if rng.random() < 0.2 else 'i0')
+            if depth + 1 < maxdepth and rng.random() < 0.35:
+                out += gen_forest(rng, depth + 1, maxdepth)
+        out.append(']')
+    return out
+
+
+def gen_events(rng):
+    """invocation sequences that are not forests of depth <= 4: unclosed lists, a fifth and sixth level
+    (\\item is a macro local to the list environments: outside any list it is not invoked)"""
+    out, depth = [], 0
+    for _ in range(rng.randint(1, 14)):
+        r = rng.random()
+        if r < 0.3 and depth < 6:
+            out.append('B'); depth += 1
+        elif r < 0.5 and depth > 0:
+            out.append('E'); depth -= 1
+        elif depth > 0:
+            out.append('I1' if rng.random() < 0.2 else 'I0')
+    if rng.random() < 0.6:
+        out += ['E'] * depth
+    return out
 
 
 def judge(o):
@@ -707,6 +889,7 @@ def nontrivial(o):
     if st == 'bcmd': return len(o.case.line.split()) > 5
     if st == 'tree': return o.case.line.count('it') >= 2 or o.case.line.count('&') >= 1
     if st == 'table': return '&' in o.case.line or 'nl' in o.case.line
+    if st == 'pos': return o.case.line.count('i') >= 2
     return False
 
 
@@ -727,7 +910,7 @@ def malform(rng, tex):
     kind = rng.choice(MALFORM)
     import re
     if kind == 'drop_end':
-        ends = [m for m in re.finditer(r'\\end\{(itemize|enumerate|description|center|quote)\}', tex)]
+        ends = [m for m in re.finditer(r'\\end\{(itemize|enumerate|description|trivlist|list|center|quote)\}', tex)]
         if ends:
             m = rng.choice(ends)
             return tex[:m.start()] + tex[m.end():]
@@ -742,7 +925,7 @@ def malform(rng, tex):
     i = rng.choice(pos)
     ins = {'extra_amp': '&', 'extra_nl': '\\\\', 'stray_rule': '\\hline ', 'item_outside': '\\item ', 'trailing_rule': ' \\hline\\\\',
            'decl_in_item': '\\bfseries ', 'vline': '\\vline '}.get(kind, '')
-    in_tab = tex.rfind('\\begin{tabular}', 0, i) > tex.rfind('\\end{tabular}', 0, i)
+    in_tab = tex.rfind('\\begin{tabular', 0, i) > tex.rfind('\\end{tabular', 0, i)
     if kind in ('extra_amp', 'extra_nl', 'stray_rule', 'trailing_rule', 'vline') and not in_tab:
         return tex
     return tex[:i] + ins + tex[i:]
@@ -802,11 +985,17 @@ def generate(ctx):
             a = rng.randint(1, total + 1)
             b = rng.randint(a, total + 1) if rng.random() < 0.9 else rng.randint(1, total)
         yield Case('bcmd', '%d %d %s 1 %s' % (a, b, rng.choice(['top', 'bottom']), ' '.join(map(str, spans))), None)
+    for _ in range(250 if q else 4000):
+        yield Case('pos', ' '.join(gen_forest(rng)), {'seed': rng.randrange(1 << 30)})
+    for _ in range(120 if q else 2000):
+        yield Case('posev', ' '.join(gen_events(rng)), {'seed': rng.randrange(1 << 30)})
     g = Gen(rng)
     for _ in range(300 if q else 2500):
         yield tree_case(g.list())
     for _ in range(120 if q else 1200):
         yield tree_case(g.table())
+    for _ in range(40 if q else 500):
+        yield tree_case(g.math_array())
     for _ in range(500 if q else 5000):
         yield table_case(g.table())
     n_rec = 400 if q else 4000
@@ -831,10 +1020,13 @@ D7_TABLE = ['A', 1, [['c', 108], ['c', 108], ['c', 108]],
              [[['L', 'cl3-3'], ['L', 'mc2.2.0.0.97']], [['L', 't98']]],
              [[]]]]
 D15_TABLE = ['A', 1, [['@', []], ['c', 108], ['|'], ['c', 99]], [[[['L', 't120']], [['L', 't121']]], [[]]]]
+# linkCells witness: \multicolumn{2}{c}{a}&\multicolumn{2}{c}{b} under {lcrp{1cm}} (second spanning cell starts at column 3, not at its index 1)
+LINK_TABLE = ['A', 1, [['c', 108], ['c', 99], ['c', 114], ['p', 112, [49, 99, 109]]],
+              [[[['L', 'mc2.2.0.0.97']], [['L', 'mc2.2.0.0.98']]], [[['L', 't120']], [['L', 't121']], [['L', 't122']], [['L', 't119']]]]]
 
 
 def corpus():
-    cs = [table_case(D7_TABLE), table_case(D15_TABLE),
+    cs = [table_case(D7_TABLE), table_case(D15_TABLE), table_case(LINK_TABLE),
           Case('bcmd', '3 3 top 1 2 0', None),
           Case('cspec', '@: c108 | c99', {'ast': D15_TABLE[2]}),
           Case('ctoks', '64 bg eg 108 124 99', None),
@@ -934,7 +1126,7 @@ def extra_checks(ctx):
     n = 600 if ctx.tier == 'quick' else 6000
     viol, samples, distinct = [], [], set()
     for i in range(n):
-        ast = g.list() if i % 2 else g.table()
+        ast = g.math_array() if i % 9 == 0 else g.list() if i % 2 else g.table()
         why, r = check_doc_pair(ast)
         tex = block_tex(ast)
         if tex.count('\\item') >= 2 or tex.count('&') >= 1:
@@ -972,7 +1164,7 @@ def check_doc_pair(ast):
     if ast[0] == 'A':
         want = expect_table(ast)
         if want is not None:
-            tab = de.getElementsByTagName('tabular')[0]
+            tab = first_arrays(de)[0]
             got = obs_table(tab)
             if got != want:
                 return 'spans/borders/styles differ', {'expected': want, 'observed': got}
